@@ -215,3 +215,51 @@ Proof.
   destruct (fdMaxBal q <? fbal s + (fdTotal q - fdCost q)) eqn:E2; [discriminate|].
   intros H. injection H as <- <-. cbn. lia.
 Qed.
+
+(** * RHP4 contractor interface *)
+Lemma add_v2_contract_no_panic : forall a b c, add_v2_contract a b c <> Panic.
+Proof.
+  intros a b c. unfold add_v2_contract, go_index.
+  destruct (a =? 0) eqn:E; [discriminate|].
+  destruct (a - 1 <? a) eqn:E1; [|lia]. cbn [bind].
+  destruct (negb (b =? 1)) eqn:E2; [discriminate|].
+  destruct (0 <? b) eqn:E3; [|lia]. cbn [bind]. destruct c; discriminate.
+Qed.
+
+Lemma renew_v2_contract_no_panic : forall a b c d e f g, renew_v2_contract a b c d e f g <> Panic.
+Proof.
+  intros a b c d e f g. unfold renew_v2_contract, go_index.
+  destruct (a =? 0) eqn:E; [discriminate|].
+  destruct (a - 1 <? a) eqn:E1; [|lia]. cbn [bind].
+  destruct (negb (b =? 1)) eqn:E2; [discriminate|].
+  destruct (0 <? b) eqn:E3; [|lia]. cbn [bind].
+  destruct c, d, e, f, g; discriminate.
+Qed.
+
+Lemma revise_v2_contract_no_panic : forall s q, snd (revise_v2_contract s q) <> Panic.
+Proof.
+  intros s q. unfold revise_v2_contract.
+  repeat match goal with |- context [if ?b then _ else _] => destruct b end; discriminate.
+Qed.
+
+Lemma revise_v2_contract_rejected : forall s q s' e, revise_v2_contract s q = (s', Err e) -> s' = s.
+Proof.
+  intros s q s' e. unfold revise_v2_contract.
+  repeat match goal with |- context [if ?b then _ else _] => destruct b end;
+    intros H; try discriminate; injection H; auto.
+Qed.
+
+(* an accepted revision has a file size that matches the root list it installs *)
+Lemma revise_v2_contract_accepted : forall s q s',
+  revise_v2_contract s q = (s', Ok tt) ->
+  rroots s' = r4Roots q /\ r4Filesize q = SectorSize * nroots (r4Roots q) /\ r4Filesize q <= r4Capacity q.
+Proof.
+  intros s q s'. unfold revise_v2_contract.
+  destruct (negb (r4Found q)); [discriminate|]. destruct (r4Renewed q); [discriminate|].
+  destruct (negb (r4KeysOk q)); [discriminate|]. destruct (negb (r4HeightsOk q)); [discriminate|].
+  destruct (negb (r4Filesize q =? SectorSize * nroots (r4Roots q))) eqn:E1; [discriminate|].
+  destruct (r4Capacity q <? r4Filesize q) eqn:E2; [discriminate|].
+  destruct (negb (r4SigsOk q)); [discriminate|]. destruct (negb (r4RootOk q)); [discriminate|].
+  destruct (negb (r4StoreOk q)); [discriminate|].
+  intros H. injection H as <-. cbn. repeat split; lia.
+Qed.
